@@ -37,6 +37,13 @@ Section Sched.
     intros H. revert s. induction H as [|q r Hq _ IH]; intros s; simpl; [reflexivity|]. rewrite Hq. apply IH.
   Qed.
 
+  (* a thread of pure observations, run alone, returns the observations of the initial state, in order *)
+  Lemma run_seq_pure (fs : list (St -> Out)) s :
+    run_seq (map pure_query fs) s = (s, map (fun f => f s) fs).
+  Proof. induction fs as [|f fs IH]; simpl; [reflexivity|]. rewrite IH. reflexivity. Qed.
+  Lemma pure_thread_read_only (fs : list (St -> Out)) : Forall read_only (map pure_query fs).
+  Proof. induction fs; simpl; constructor; auto using pure_query_read_only. Qed.
+
   (* replace the t-th element *)
   Fixpoint set_nth {A} (t : nat) (x : A) (l : list A) : list A :=
     match l, t with
@@ -157,6 +164,19 @@ Section Sched.
     rewrite (O1 C1), (O2 C2), S1, S2. split; reflexivity.
   Qed.
 
+  (* threads of pure observation functions: after ANY complete schedule every thread holds exactly the values of
+     its functions on the initial state *)
+  Corollary pure_queries_interleave (fss : list (list (St -> Out))) s0 sch :
+    let c := run_sched (init (map (map pure_query) fss) s0) sch in
+    st c = s0 /\ (complete c -> outs c = map (map (fun f => f s0)) fss).
+  Proof.
+    intros c.
+    assert (H : Forall (Forall read_only) (map (map pure_query) fss)).
+    { apply Forall_forall. intros th Hth. apply in_map_iff in Hth. destruct Hth as (fs & <- & _). apply pure_thread_read_only. }
+    destruct (interleaving_read_only _ s0 sch H) as (A & _ & C). split; [exact A|].
+    intros Hc. fold c in C. rewrite (C Hc). rewrite map_map. apply map_ext. intros fs. rewrite run_seq_pure. reflexivity.
+  Qed.
+
   (* ---- complete schedules exist (the theorem is not vacuous): run the threads one after the other *)
   Lemma sched_step_length c t : length (pending (sched_step c t)) = length (pending c).
   Proof.
@@ -224,6 +244,7 @@ End Sched.
 
 Arguments read_only {St Out} q.
 Arguments pure_query {St Out} f.
+Arguments sched_step {St Out} c t.
 Arguments run_seq {St Out} th s.
 Arguments init {St Out} ths s.
 Arguments run_sched {St Out} c sch.
